@@ -10,13 +10,26 @@ __all__ = ["Engine", "AnalysisError", "norm_stmt"]
 
 
 class Engine:
-    def __init__(self, root, overrides=None):
+    def __init__(self, root, overrides=None, canonical=None):
+        import os
+
         self.root = root
         self.p = Program(root, overrides=overrides)
+        self._canon = None
+        self.canonical = bool(int(os.environ.get("KV_CANONICAL", "1"))) if canonical is None else canonical
+        if self.canonical:
+            # analyse the canonical program: every function body is replaced by its canonical form before effects / CFGs / rules look at it
+            from .canon import Canon
+
+            self._canon = Canon(self.p)
+            fs = list(self.p.all_functions())
+            new = [(f, self._canon.fn(f)) for f in fs]
+            self.source_nodes = {id(f): f.node for f in fs}
+            for f, n in new:
+                f.node = n
         self.eff = make_effects(self.p)
         self._cfgs = {}
         self._must = {}
-        self._canon = None
         self._ccfgs = {}
 
     def cfg(self, func, extra_raises=None):
@@ -41,24 +54,40 @@ class Engine:
     def cnode(self, func, paths=False, inline=True):
         """canonical tree of the function: single-use private helpers written out, aliases resolved, exits / negations / keyword arguments in one form.
         paths=True: locals that only name an attribute path (`_counts = self._data`) are written out as well (see canon.close_paths)"""
-        if not inline:
-            return self.canon.fn(func, inline=False)
-        if not paths:
+        if self.canonical and inline:
+            if not paths:
+                return func.node
+        elif not inline:
+            return self.canon.fn(self._source_func(func), inline=False)
+        elif not paths:
             return self.canon.fn(func)
         k = ("paths", id(func))
         n = self._ccfgs.get(k)
         if n is None:
             from .canon import close_paths
 
-            n = close_paths(self.canon.fn(func))
+            n = close_paths(func.node if self.canonical else self.canon.fn(func))
             self._ccfgs[k] = n
         return n
+
+    def _source_func(self, func):
+        """FuncInfo with the source tree as written (the canonical program keeps it in source_nodes)"""
+        if not self.canonical or id(func) not in getattr(self, "source_nodes", {}):
+            return func
+        k = ("src", id(func))
+        c = self._ccfgs.get(k)
+        if c is None:
+            c = FuncInfo(func.name, func.cls, func.module, self.source_nodes[id(func)], func.kind, func.prop)
+            self._ccfgs[k] = c
+        return c
 
     def cfunc(self, func, paths=True):
         """the function with its canonical tree as `.node` (same name / class / module): rules written against FuncInfo work on it unchanged"""
         from .srcmodel import FuncInfo
 
         if getattr(func, "_is_canonical", False) if hasattr(func, "_is_canonical") else False:
+            return func
+        if self.canonical and not paths:
             return func
         k = ("cfunc", id(func), paths)
         c = self._ccfgs.get(k)
@@ -75,6 +104,10 @@ class Engine:
         return self.canon.absorbed(func)
 
     def csrc(self, func):
+        if self.canonical:
+            from .rules.common import Src
+
+            return Src(" ".join(ast.unparse(func.node).split()))
         return self.canon.src(func)
 
     def ccfg(self, func, paths=False):
